@@ -43,6 +43,9 @@ RULE = (
     "cache-off == z3 per query; "
     "(b5) paths that need refinement (mul/div/mod by a symbolic operand; really unsat and really sat after refinement) through the real "
     "solve_end_to_end with a non-empty cache: cache-on == cache-off == truth under exact EVM operations; "
+    "(b6) the real run_test() loop with run_message replaced by a generator of end states carrying real Paths (stuck+infeasible end state, "
+    "success, gc, Panic path steered onto the freed ast ids), cache off vs on: same exit code/counterexamples/verdicts and no core cached for an "
+    "end state that is not retained; "
     "(b4) a scripted solver front-end (vlib/stub_solver.py) whose first unsat reply carries an empty core `()`, no core line, or a core "
     "with an error line, followed by satisfiable queries answered by real z3: nothing degenerate is stored and no later query is "
     "answered from the cache; "
@@ -679,6 +682,120 @@ def correspond(ctx):
             del p0, pr
         ctx.extra.setdefault('t_b5_cases', {})[rname] = round(time.time() - t_case, 1)
     ctx.extra['t_b5'] = round(time.time() - t_b5, 1)
+
+    # =============================================================== (b6) the real run_test() loop: which end states feed the cache
+    # run_test() is driven with its path explorer (run_message) replaced by a generator of end states carrying real Paths: a stuck end state
+    # whose condition the solver proves unsat (it is dropped, nothing retains it), a successful path, a gc, then a Panic path whose fresh
+    # satisfiable conditions are steered onto the freed ast ids.  Same scenario with the cache off and on: the verdict must be the same, and
+    # no core may be cached for an end state that is not retained until the function's queries have finished.
+    import halmos.__main__ as hm
+
+    class _Out:
+        def __init__(self, error=None):
+            self.error, self.data = error, None
+
+    class _Ctx:
+        def __init__(self, stuck, error):
+            self.output, self._stuck = _Out(error), stuck
+
+        def is_stuck(self):
+            return self._stuck
+
+        def get_stuck_reason(self):
+            return RuntimeError("stub: unsupported opcode")
+
+        def subcalls(self):
+            return []
+
+    class _Ex:
+        def __init__(self, path, stuck=False, panic=False):
+            self.path, self.context, self.call_sequence, self._panic = path, _Ctx(stuck, "Revert()" if panic else None), [], panic
+
+        def is_panic_of(self, codes):
+            return self._panic
+
+    def run_test_scenario(cache, scmd, lo, hi_, info):
+        rargs = eng.args(cache_solver=cache, solver_command=scmd, no_status=True, solver_threads=1, solver_timeout_assertion=20.0)
+        pool = [z3.BitVec(f"halmos_w{i}_uint256_00", 256) for i in range(60)]
+        xx = z3.BitVec("halmos_q_uint256_00", 256)
+
+        def scenario(*_a, **_k):
+            ok_path = Path(mk_solver(rargs))
+            ok_path.append(z3.ULT(pool[0], z3.BitVecVal(1000, 256)))
+            p0 = Path(mk_solver(rargs))
+            p0.append(z3.ULT(xx, z3.BitVecVal(lo, 256)))
+            p0.append(z3.UGT(xx, z3.BitVecVal(hi_, 256)))
+            dead = {c.get_id() for c in p0.conditions}
+            info["dead"] = sorted(dead)
+            yield _Ex(p0, stuck=True)
+            del p0
+            yield _Ex(ok_path)
+            gc.collect()
+            p2 = Path(mk_solver(rargs))
+            junk, rec = [], set()
+            for i in range(len(pool)):
+                for j in range(i + 1, len(pool)):
+                    c = z3.simplify(z3.ULE(pool[i], pool[j]))
+                    if c.get_id() in dead:
+                        p2.append(c)
+                        rec.add(c.get_id())
+                    else:
+                        junk.append(c)
+                    if rec == dead:
+                        break
+                if rec == dead:
+                    break
+            p2.append(z3.ULT(pool[0], z3.BitVecVal(7, 256)))
+            info["recycled"] = sorted(rec)
+            info["p2_ids"] = [c.get_id() for c in p2.conditions]
+            yield _Ex(p2, panic=True)
+            del junk
+
+        fi = FunctionInfo("RT", "check_rt", "check_rt()", "deadbeef")
+        cctx = ContractContext(args=rargs, name="RT", funsigs=["check_rt()"], creation_hexcode="", deployed_hexcode="",
+                               abi={"check_rt()": {"inputs": [], "name": "check_rt", "type": "function"}}, method_identifiers={"check_rt()": "deadbeef"},
+                               contract_json={}, libs={}, build_out_map={})
+        fctx = FunctionContext(args=rargs, info=fi, solver=None, contract_ctx=cctx)
+        old = hm.run_message
+        hm.run_message = scenario
+        try:
+            with contextlib.redirect_stdout(io.StringIO()), contextlib.redirect_stderr(io.StringIO()):
+                res = hm.run_test(fctx)
+        finally:
+            hm.run_message = old
+        verdicts = [str(o.result) for o in sorted(fctx.solver_outputs, key=lambda o: o.path_id)]
+        cores = [list(c) for c in fctx.solving_ctx.unsat_cores]
+        with contextlib.suppress(Exception):
+            fctx.solving_ctx.executor.shutdown(wait=False)
+        with contextlib.suppress(Exception):
+            fctx.solving_ctx.dump_dir.cleanup()
+        return res.exitcode, res.num_models, verdicts, cores
+
+    for ti in range(ctx.scale(3, 20)):
+        lo = rng.choice([3, 4, 9])
+        hi_ = lo + rng.choice([2, 5])
+        scmd = z3bin if ti % 2 == 0 else solver_cmds["yices"]
+        info_off, info_on = {}, {}
+        off_r = run_test_scenario(False, scmd, lo, hi_, info_off)
+        gc.collect()
+        on_r = run_test_scenario(True, scmd, lo, hi_, info_on)
+        gc.collect()
+        ctx.case(f"run_test|{ti}|{lo}|{hi_}|{scmd[-6:]}")
+        ctx.count(f"run_test:off={off_r[0]}/{off_r[1]}:on={on_r[0]}/{on_r[1]}:recycled={len(info_on.get('recycled', []))}of{len(info_on.get('dead', []))}")
+        dead_on = {str(i) for i in info_on.get("dead", [])}
+        stray = [c for c in on_r[3] if c and set(c) <= dead_on]
+        if stray:
+            ctx.violation("unsat-core-cache:run_test:core-cached-for-unretained-stuck-end-state",
+                          f"run_test with --cache-solver: the feasibility query of a stuck end state (conditions ids {sorted(dead_on)}) was proved unsat and its core "
+                          f"{stray} is in the function's cache, although that end state is dropped right away (its ast ids can be recycled)",
+                          {"kind": "run_test", "dead": sorted(dead_on), "cores": on_r[3]})
+        if all(v in DEF for v in off_r[2] + on_r[2]) and (off_r[0], off_r[1], off_r[2]) != (on_r[0], on_r[1], on_r[2]):
+            ctx.violation("unsat-core-cache:run_test:verdict-flipped",
+                          f"run_test on the same end states: cache off -> exitcode {off_r[0]}, {off_r[1]} counterexample(s), assertion verdicts {off_r[2]}; cache on -> "
+                          f"exitcode {on_r[0]}, {on_r[1]} counterexample(s), verdicts {on_r[2]}; cores {on_r[3]}; stuck path ids {info_on.get('dead')}, recycled onto the "
+                          f"Panic path: {info_on.get('recycled')} (its ids {info_on.get('p2_ids')})", {"kind": "run_test", "info": info_on})
+        elif (off_r[0], off_r[1]) != (on_r[0], on_r[1]):
+            ctx.count("solver-timing:run_test")
 
     # =============================================================== (b4) degenerate cores from the solver / front-end
     # The first unsat reply of a function carries an empty core `()` (what z3 prints when no assertion is named, or a front-end that
